@@ -103,6 +103,9 @@ def rewrite(sb, path, cmd):
         if not os.path.exists(wf):
             vlib.write_fasta(wf, ["ACGTTGCATGCATCGATCGATCGTACGTAGCTAGCTAGCTAGCATCGATCGACTGCATGCTAGCTAGCTAGCTAGCATGCATCGA"])
         rc, so, se = vlib.ska_cli(["weed", path, wf, "-o", out, "--min-freq", "0", "--filter", "no-filter"])
+    elif cmd == "weed-noop":
+        # nothing to weed, nothing to filter: still a read of the whole file and a write of what was read
+        rc, so, se = vlib.ska_cli(["weed", path, "-o", out, "--min-freq", "0"])
     else:
         rc, so, se = vlib.ska_cli(["delete", "-s", path, "-o", out, "b"])
     if rc != 0 or not os.path.exists(out):
@@ -164,7 +167,7 @@ def run(run, tier, seed):
             rc0, so0, _ = vlib.ska_cli(["nk", "--full-info", path])
             rc1, so1, _ = vlib.ska_cli(["align", path, "--min-freq", "0", "--filter", "no-filter"])
             rc2, so2, _ = vlib.ska_cli(["distance", path, "--min-freq", "0"])
-            ref_out[name] = (so0, sorted(so1.split(b"\n")), so2, rewrite(sb, path, "weed"), rewrite(sb, path, "delete"))
+            ref_out[name] = (so0, sorted(so1.split(b"\n")), so2, rewrite(sb, path, "weed"), rewrite(sb, path, "delete"), rewrite(sb, path, "weed-noop"))
         data = {n: open(p, "rb").read() for n, p in files.items()}
         picks = []
         for name, r in results.items():
@@ -185,7 +188,7 @@ def run(run, tier, seed):
             else:
                 raw[f["off"]] ^= 1 << f["bit"]
             open(dpath, "wb").write(bytes(raw))
-            for cmd in ("nk", "align", "merge", "merge2", "distance", "weed", "delete"):
+            for cmd in ("nk", "align", "merge", "merge2", "distance", "weed", "delete", "weed-noop"):
                 if cmd == "nk":
                     rc, so, se = vlib.ska_cli(["nk", "--full-info", dpath])
                     same_out = so == ref_out[name][0]
@@ -195,12 +198,12 @@ def run(run, tier, seed):
                 elif cmd == "distance":
                     rc, so, se = vlib.ska_cli(["distance", dpath, "--min-freq", "0"])
                     same_out = so == ref_out[name][2]
-                elif cmd in ("weed", "delete"):
+                elif cmd in ("weed", "delete", "weed-noop"):
                     # the commands that rewrite a file: what they write from a damaged copy must be what they write
                     # from the original
                     got = rewrite(sb, dpath, cmd)
                     rc = 0 if got is not None else 1
-                    same_out = got is not None and got == ref_out[name][3 if cmd == "weed" else 4]
+                    same_out = got is not None and got == ref_out[name][{"weed": 3, "delete": 4, "weed-noop": 5}[cmd]]
                 else:
                     mo = os.path.join(sb.dir, "mergeout")
                     if os.path.exists(mo + ".skf"):
